@@ -41,6 +41,11 @@ def gen_cases(tier, seed):
         for j in range(nops):
             ops.append(r.choice(["api", "api", "asm", "futil", "api-multi", "futil-select"]))
         yield {"id": "hist/%d" % k, "kind": "history", "medium": medium, "ops": ops, "fill": r.random() < 0.15 and medium == "dsk"}
+    # in-memory histories on ONE DiskFile object: add, list, add, list ... (what was listable must stay listable)
+    for k in range(400 if thorough else 40):
+        r = rng(seed, "C09", "mem", k)
+        specs = [G.gen_file(r, "disk", unique=j, length=r.choice(G.DISK_LEN + [r.randrange(0, 9000)])) for j in range(r.choice([2, 3, 5, 8]))]
+        yield {"id": "memdisk/%d" % k, "kind": "own", "files": specs, "order": None if k % 3 else sorted(range(68), key=lambda g: r.random())}
     for fill in (0x00, 0xFF):
         yield {"id": "bigcas/%02X" % fill, "kind": "bigcas", "fill": fill}
     yield {"id": "cas-empty-then-append", "kind": "cas-empty"}
@@ -261,6 +266,11 @@ def run_cas_empty(case, ctx):
 
 
 def run_case(case, ctx):
+    if case["kind"] == "own":
+        from vlib import media_disk
+        media_disk._run_case(case, ctx)
+        ctx.cell("memdisk")
+        return
     if case["kind"] == "history":
         return run_history(case, ctx)
     if case["kind"] == "bigcas":
